@@ -60,6 +60,17 @@ theorem delivery_complete {ρ : Type} (c : Cfg ρ) (hunbuf : c.handoffBuffered =
   rw [hp, h1] at h
   simpa [project_nil] using h
 
+/-- …and with the current read fully enqueued, "its whole stream" is about every record the reader handed out: the
+records of the read order are exactly `fetchedOf as` -/
+theorem delivery_complete_all_read {ρ : Type} (c : Cfg ρ) (hunbuf : c.handoffBuffered = false) (maxSize : Nat) (hasDelay : Bool)
+    (as : List (Act ρ)) (s : St ρ) (hrun : exec c (init maxSize hasDelay) as = some s) (hquiet : quiescent s)
+    (hread : s.readBuf = []) (q : Nat) (hq : q < c.nOps) :
+    delivered s q = project c q s.logical ∧ recordsOf s.logical = fetchedOf as := by
+  refine ⟨delivery_complete c hunbuf maxSize hasDelay as s hrun hquiet q hq, ?_⟩
+  have := read_order c hunbuf maxSize hasDelay as s hrun
+  rw [hread] at this
+  simpa using this
+
 /-- **exactly once**: after a failure-free run a keyed event has been handed to the operator its key routes to as
 often as the user's key function produced it, and to no other operator -/
 theorem exactly_once {ρ : Type} (c : Cfg ρ) (hunbuf : c.handoffBuffered = false) (maxSize : Nat) (hasDelay : Bool) (as : List (Act ρ)) (s : St ρ)
@@ -122,6 +133,78 @@ def demoSchedule : List (Act (Nat × Nat)) :=
 
 example : (exec demoCfg (init 2 true) demoSchedule).map (fun s => (delivered s 0, delivered s 1, s.stream.length, s.todo.length)) =
     some ([.keyed ⟨[], 1, 0⟩, .barrier 7, .keyed ⟨[], 3, 0⟩], [.keyed ⟨[0], 2, 0⟩, .barrier 7], 0, 0) := by decide
+
+/-! ## composition with C20: the reorder fetcher behaves as the FIFO the runner model contains
+
+`Runner.St` represents `keyEventChannel` by a FIFO of results (`rfOut ++ rfPending`): `enq` appends `keyOf r`, `sTake`
+pops the head, `rfEmit` is internal. The two theorems below derive exactly this behaviour for the *real* fetcher's
+transition system (`Model/Reorder.lean`, tied to the code by C20) from `C20.reorder_prefix_no_errors`: with
+`φ = ((inputs as).map g).drop (number of results received)` as the abstraction of a fetcher run, `pAdd x` appends `g x`
+to `φ`, the consumer's `recv` pops the head of `φ`, and every other action of the fetcher (both flushers, timer expiries,
+fetch completions in any order, the drain, sends into `Output`) leaves `φ` unchanged and is invisible. -/
+
+open Reorder in
+/-- the results received so far are those of the first records added, in `Add` order: one result per record -/
+theorem rf_results_in_add_order {ρ : Type} (g : ρ → List KEv) (maxSize : Nat) (hasDelay : Bool) (bufferSize : Nat)
+    (as : List (Reorder.Act ρ)) (r : Reorder.Run ρ (List KEv))
+    (hrun : Reorder.exec (List.map g) (fun _ => false) true { st := Reorder.init maxSize hasDelay bufferSize } as = some r) :
+    r.out = ((Reorder.inputs as).take r.out.length).map g := by
+  obtain ⟨rest, h⟩ := C20.reorder_prefix_no_errors g maxSize hasDelay bufferSize as r hrun
+  rw [List.map_take, ← h, List.take_left']
+  rfl
+
+open Reorder in
+/-- one step of the real fetcher is one step (or a stutter) of the FIFO in the runner model -/
+theorem rf_step_is_fifo_step {ρ : Type} (g : ρ → List KEv) (maxSize : Nat) (hasDelay : Bool) (bufferSize : Nat)
+    (as : List (Reorder.Act ρ)) (r : Reorder.Run ρ (List KEv)) (a : Reorder.Act ρ) (s' : Reorder.St ρ (List KEv))
+    (o : List (List KEv))
+    (hrun : Reorder.exec (List.map g) (fun _ => false) true { st := Reorder.init maxSize hasDelay bufferSize } as = some r)
+    (hstep : Reorder.step (List.map g) (fun _ => false) true r.st a = some (s', o)) :
+    let φ := ((Reorder.inputs as).map g).drop r.out.length
+    let φ' := ((Reorder.inputs (as ++ [a])).map g).drop (r.out ++ o).length
+    (∀ x, a = .pAdd x → o = [] ∧ φ' = φ ++ [g x]) ∧
+    (a = .recv → ∃ v, o = [v] ∧ φ = v :: φ') ∧
+    ((∀ x, a ≠ .pAdd x) → a ≠ .recv → o = [] ∧ φ' = φ) := by
+  intro φ φ'
+  obtain ⟨hrecv, hother⟩ := Reorder.step_out _ _ _ _ _ _ _ hstep
+  obtain ⟨rest, hpre⟩ := C20.reorder_prefix_no_errors g maxSize hasDelay bufferSize as r hrun
+  have hlen : r.out.length ≤ ((Reorder.inputs as).map g).length := by
+    rw [← hpre]; simp
+  refine ⟨?_, ?_, ?_⟩
+  · intro x hx
+    subst hx
+    have ho := hother (by simp)
+    subst ho
+    refine ⟨rfl, ?_⟩
+    show (List.map g (Reorder.inputs (as ++ [.pAdd x]))).drop (r.out ++ []).length = _
+    rw [Reorder.inputs_snoc, List.append_nil, List.map_append, List.drop_append_of_le_length hlen]
+    rfl
+  · intro ha
+    subst ha
+    obtain ⟨v, hv⟩ := hrecv rfl
+    subst hv
+    refine ⟨v, rfl, ?_⟩
+    -- the run extended by this `recv` is again a run of the fetcher: apply C20 to it
+    have hrun' : Reorder.exec (List.map g) (fun _ => false) true { st := Reorder.init maxSize hasDelay bufferSize } (as ++ [.recv])
+        = some { st := s', ins := r.ins ++ Reorder.inputOf .recv, out := r.out ++ [v] } := by
+      rw [Reorder.exec_snoc, hrun]; simp [hstep]
+    obtain ⟨rest', hpre'⟩ := C20.reorder_prefix_no_errors g maxSize hasDelay bufferSize _ _ hrun'
+    have hin : Reorder.inputs (as ++ [.recv]) = Reorder.inputs as := by
+      rw [Reorder.inputs_snoc]; simp [Reorder.inputOf]
+    show (List.map g (Reorder.inputs as)).drop r.out.length = v :: (List.map g (Reorder.inputs (as ++ [.recv]))).drop (r.out ++ [v]).length
+    rw [hin] at hpre' ⊢
+    simp only at hpre'
+    rw [← hpre']
+    simp [List.append_assoc]
+  · intro hadd hnr
+    have ho := hother hnr
+    subst ho
+    refine ⟨rfl, ?_⟩
+    have hin : Reorder.inputs (as ++ [a]) = Reorder.inputs as := by
+      rw [Reorder.inputs_snoc]
+      cases a <;> simp_all [Reorder.inputOf]
+    show (List.map g (Reorder.inputs (as ++ [a]))).drop (r.out ++ []).length = _
+    rw [hin, List.append_nil]
 
 /-! negative witness: the theorems are about the *unbuffered* hand-off of `batchingOperator` (the router blocks until
 the operator goroutine takes the batch). With a one-slot channel a full batch can sit in the channel while the
